@@ -390,7 +390,9 @@ def run(ctx):
             nb = get_neighbors_in_bounds(np.array(cell), np.array(shp))
             if len(nb): nb[:] = nb[0]
         shape = np.array([2, 2]); sweep = []
-        for step in range(6):
+        SWEEP = [(2, 2), (3, 2), (3, 3), (2, 3), (2, 4), (4, 2), (2, 2)]      # every grid of the sweep has an exact table (C19_uniform_RxC)
+        for step in range(len(SWEEP)):
+            shape[0], shape[1] = SWEEP[step]              # the caller changes its ONE array in place
             sd = ctx.rng.randrange(2**32); np.random.seed(sd); sweep.append([int(shape[0]), int(shape[1]), sd])
             with WTap() as t:
                 m = LG2.gen_wilson(shape)
@@ -402,11 +404,11 @@ def run(ctx):
                 ctx.violate(f"gen_wilson called with a shape array that had been changed in place to {r}x{c} (same array object as the previous call) did not return a spanning tree "
                             f"of that grid: {bad or 'wrong array shape ' + str(m.connection_list.shape)}", dict(rows=r, cols=c, draws=t.draws, edges=e))
             pending.append((r, c, e, t, dict(op="C19.run", rows=r, cols=c, draws=t.draws)))
-            shape[step % 2] += 1 if step < 3 else -1
     except TooManyDraws:
-        # draws here are genuinely random (numpy seeded, nothing scripted): on a grid of at most 9 cells Wilson's walk ends within a few dozen
-        # draws; 200000 draws without returning has probability far below 1e-9 under the proven law (C19_geometric_decay), so this history
-        # is reported as a failing input: the call does not return a sample at all
+        # draws here are genuinely random (numpy seeded, nothing scripted) and every grid of the sweep has an exact table: by C19_uniform_RxC
+        # the unfinished mass R n is <= 1e-9 for every n >= n0 (n0 <= 500) and by C19_unfinished_anti it does not grow, so 200000 draws
+        # without returning has probability at most 1e-9 under the proven law (the general bound C19_geometric_decay is far too weak to
+        # say that). The history is therefore reported as a failing input: the call does not return a sample at all
         ctx.violate(f"gen_wilson did not return within 200000 random draws on a {sweep[-1][0]}x{sweep[-1][1]} grid when called with ONE shape array object that "
                     f"the caller changes in place between calls (a size sweep); calls so far (rows, cols, numpy seed): {sweep}",
                     dict(rows=sweep[-1][0], cols=sweep[-1][1], sweep=sweep, reused_shape_array=True))
